@@ -593,7 +593,12 @@ def rule_writeback(run):
     _roles.run_writeback_rule(run, "F-WRITEBACK")
 
 
-RULES = [rule_chain, rule_pushed, rule_alias, rule_index_capture, rule_if_merge, rule_writeback, rule_with_exit, rule_std_assignable]
+def rule_refspec(run):
+    from . import c08
+    c08.rule_refspec_reads(run)   # the index of an assignment target is READ at the access; flagged otherwise its capture is removed
+
+
+RULES = [rule_chain, rule_pushed, rule_alias, rule_index_capture, rule_if_merge, rule_writeback, rule_with_exit, rule_std_assignable, rule_refspec]
 LEVEL = "other"
 EXPLANATION = (
     "Table/shape analysis of the assignment pipeline for all programs at once: the nine hand-written stages that carry "
